@@ -88,6 +88,7 @@ C_Step(k) ==
     CASE ln.ev = "Block"       -> BeginBlock
       [] ln.ev = "ParamChange" -> IF ln.res = "ok" THEN ParamChange(Ps(ln.args)) /\ Ps(ln.args) \in ParamSpace
                                   ELSE UNCHANGED <<pool, sink, params, halted>>
+      [] ln.ev = "BankSwitch"  -> ln.res = "ok" /\ UNCHANGED <<pool, sink, params, halted>>
       [] OTHER                 -> FALSE
 
 Conform(k) == Step(k) => (C_Step(k) \/ PrintT(<<"DRIFT", k, Trace[k].ev>>))
